@@ -240,7 +240,7 @@ Proof.
       * left. unfold tx_exit. simpl. apply removal_refl.
     + left. rewrite tx_loop_top_active. apply removal_refl.
     + left. destruct (closed_local s); simpl; [apply removal_refl|].
-      rewrite tx_loop_top_active. destruct (caller_done s e); apply removal_refl.
+      rewrite tx_loop_top_active. apply removal_refl.
     + left. destruct (d_enabled s d); [|apply removal_refl].
       pose proof (dstep_removal s d) as P. destruct (dstep s d) as [s1 d1]. simpl in *. exact P.
     + left. apply removal_refl.
@@ -451,10 +451,8 @@ Proof.
       unfold P, Q in *. simpl in *. rewrite cnt_app in H. rewrite ?Etx in H. simpl in H. rewrite ?Etx. simpl. lia.
     + destruct (closed_local s).
       * unfold P, Q; simpl. rewrite Etx. simpl. lia.
-      * destruct (caller_done s e).
-        -- pose proof (tx_loop_top_P s x). rewrite Etx in H. simpl in H. lia.
-        -- pose proof (tx_loop_top_P (set_out s (out s ++ [e])) x) as H. simpl in H. rewrite Etx in H.
-           unfold P, Q in *. simpl in *. rewrite ?Etx in H. simpl in H. rewrite ?Etx. simpl. lia.
+      * pose proof (tx_loop_top_P (set_out s (out s ++ [e])) x) as H. simpl in H. rewrite Etx in H.
+        unfold P, Q in *. simpl in *. rewrite ?Etx in H. simpl in H. rewrite ?Etx. simpl. lia.
     + destruct (d_enabled s d); auto.
       apply (disc_P s d x (fun s1 d1 => set_tx s1 (TDisc d1))).
       * intros. unfold P, Q. simpl. lia.
